@@ -240,9 +240,21 @@ def check_template(ctx, m, f, t, p):
     ctx.check(ok_n, "R09.2", f.where(m.pass2), "exactly three fields are appended", key_of(f, f"appended-count:{len(got)}"), template=tmpl.show(t))
     if not ok_n:
         return
+    # a second name for the record of this iteration (`alignment = <loop variable>` once, first thing in the body: the item of an
+    # inlined generator helper) is the record
+    aliases = {rec}
+    for st_ in m.pass2.body:
+        if isinstance(st_, ast.Assign) and len(st_.targets) == 1 and isinstance(st_.targets[0], ast.Name) and isinstance(st_.value, ast.Name) and st_.value.id in aliases and sum(1 for x_ in ast.walk(m.pass2) if isinstance(x_, ast.Name) and isinstance(x_.ctx, ast.Store) and x_.id == st_.targets[0].id) == 1:
+            aliases.add(st_.targets[0].id)
+    # ... and a field of the record read into a local once per iteration (`sn = alignment.sn`) is that field
+    fld_alias = {}
+    for st_ in m.pass2.body:
+        if isinstance(st_, ast.Assign) and len(st_.targets) == 1 and isinstance(st_.targets[0], ast.Name) and isinstance(st_.value, ast.Attribute) and isinstance(st_.value.value, ast.Name) and st_.value.value.id in aliases and sum(1 for x_ in ast.walk(m.pass2) if isinstance(x_, ast.Name) and isinstance(x_.ctx, ast.Store) and x_.id == st_.targets[0].id) == 1:
+            fld_alias[st_.targets[0].id] = f"{rec}.{st_.value.attr}"
     for (lit, hole, tail, n), (wl, role) in zip(got, want):
         attr = role_attr(m, role)
-        ok = lit == wl and hole == f"{rec}.{attr}"
+        hole = fld_alias.get(hole, hole)
+        ok = lit == wl and hole in {f"{a_}.{attr}" for a_ in aliases}
         ctx.check(ok, "R09.2", f.where(m.pass2), f"appended field {wl} is fed from the {role} value of the record being written", key_of(f, f"appended:{wl}:{lit}{hole}"), literal=lit, hole=hole, expected=f"{rec}.{attr}")
     last = got[-1]
     ctx.check(last[2] == "\n" and all(g[2] == "" for g in got[:-1]), "R09.2", f.where(m.pass2), "one newline terminates the record", key_of(f, "newline"), template=tmpl.show(t))
